@@ -785,6 +785,12 @@ func judge(res *evid.Result, fm fnMeta, fn *ssa.Function, sites map[int]*recSite
 			case overflowed:
 				// the variable passed through its type's overflow in this very trace
 				class = "wraparound"
+				if m.Cmp == "!=" && m.Step != "+1" && m.Step != "-1" {
+					// a strided `!=` loop steps OVER its limit and only ends after wrapping
+					// round to it: a trip count for it is another matter than the unit-step
+					// wrap-around (which starts beyond the limit)
+					class = "wraparound-strided-neq"
+				}
 			case m.Form == "breaktop" || m.Form == "bottom":
 				// the true branch of the exit test LEAVES the loop
 				class = "exit-on-true-polarity"
